@@ -174,7 +174,16 @@ def rule_remove(ctx, M, gname, rule):
         if not all(bi.guarded_by(x, te) for x in st + sr):
             probs.append("state / slab entry removed without the key having been present")
     rets = flow.returned_values(bi)
-    if not rets or not all(t[0] == "call" and t[3] == r.block for _, _, _, t in rets):
+
+    def presence(blk, t):
+        if t[0] == "call" and t[3] == r.block:
+            return True
+        if t == ("const", 1):
+            return bool(te) and bi.guarded_by(blk, te)
+        if t == ("const", 0):
+            return bool(fe) and bi.guarded_by(blk, fe)
+        return False
+    if not rets or not all(presence(blk, t) for blk, _, _, t in rets):
         probs.append("remove does not return whether the key was present")
     if probs:
         for p in sorted(set(probs)):
@@ -205,7 +214,9 @@ def rule_view(ctx, M, gname, rule):
     bi = M.info(b)
     inner = [s for s in bi.sites if s.callee.name == "poll_next_inner"]
     ok = len(inner) == 1
-    if ok:
+    if ok and key_dropping_map(M, bi, inner[0]):
+        pass
+    elif ok:
         s = inner[0]
         rets = flow.returned_values(bi)
         kinds = sorted(r[1] for r in rets)
@@ -251,6 +262,37 @@ def rule_view(ctx, M, gname, rule):
                 ok2, bad = bi.must_reach([t for _, t in se], [ins[0].block], [h] + list(bi.return_blocks))
                 ok = ok and bool(se) and ok2
         ctx.check(ok, rule, eb.def_, "extend inserts every item of the iterator", site=eb.span)
+
+
+def _closure_body(M, t):
+    if t is not None and t[0] == "agg" and isinstance(t[1], tuple) and t[1][0] == "closure":
+        return M.by_cdef.get(t[1][1])
+    return None
+
+
+def key_dropping_map(M, bi, inner_site):
+    """`self.poll_next_inner(cx).map(|opt| opt.map(|(_key, item)| item))` - the combinator spelling
+    of 'forward everything, drop only the key'."""
+    rets = flow.returned_values(bi)
+    if len(rets) != 1:
+        return False
+    t = rets[0][3]
+    if not (t[0] == "call" and t[1] == ("Poll", "map") and len(t[2]) == 2 and t[2][0] == inner_site.term):
+        return False
+    c1 = _closure_body(M, t[2][1])
+    if c1 is None:
+        return False
+    r1 = flow.returned_values(M.info(c1))
+    if len(r1) != 1:
+        return False
+    t1 = r1[0][3]
+    if not (t1[0] == "call" and t1[1] == ("Option", "map") and len(t1[2]) == 2 and t1[2][0] == ("param", 2)):
+        return False
+    c2 = _closure_body(M, t1[2][1])
+    if c2 is None:
+        return False
+    r2 = flow.returned_values(M.info(c2))
+    return len(r2) == 1 and r2[0][3] == ("field", ("param", 2), 1)
 
 
 def rule_empty(ctx, M, u, rule, extra_guards=()):
